@@ -164,6 +164,29 @@ func (net *vfNet) lagScenario(o *vfOut, rounds int) int {
 	return int(net.nodes[lag].cs.Round) - int(before)
 }
 
+// vfForgottenCommits describes every correct node: height/round/step, CommitRound and whether it
+// has the block; returns whether some node has CommitRound != 0 at its current height, is NOT in
+// the commit step, and holds - in its own vote sets - a +2/3 precommit majority for a block at that
+// round (it had decided and forgot). Read-only.
+func vfForgottenCommits(net *vfNet) (bool, string) {
+	any := false
+	var sb strings.Builder
+	for _, nd := range net.nodes {
+		cs := nd.cs
+		forgot := "-"
+		if cs.CommitRound != 0 && cs.Step != cstypes.RoundStepCommit && cs.Step != cstypes.RoundStepNewHeight {
+			if pc := cs.Votes.Precommits(cs.CommitRound); pc != nil {
+				if id, ok := pc.TwoThirdsMajority(); ok && !id.IsZero() {
+					forgot = fmt.Sprintf("holds-+2/3-precommits-for-%x-at-round-%d", id.Hash.Bytes()[:4], cs.CommitRound)
+					any = true
+				}
+			}
+		}
+		fmt.Fprintf(&sb, " [node%d H=%d R=%d step=%d stored=%d commitRound=%d has-block=%v expects-parts=%v forgotten-commit=%s]", nd.idx, cs.Height, cs.Round, cs.Step, nd.bo.Height(), cs.CommitRound, cs.ProposalBlock != nil, cs.ProposalBlockParts != nil, forgot)
+	}
+	return any, sb.String()
+}
+
 // vfStaleLocks describes every correct node at height h: height/round/step, lock (round, block),
 // valid round, and whether it HOLDS - in its own vote sets - a +2/3 prevote majority for nil or for a
 // block other than its locked block at a round in (LockedRound, Round]. Returns whether some node
@@ -292,21 +315,33 @@ func TestVerifC04(t *testing.T) {
 		r := vfFork(seed, uint64(c))
 		n, stake, byz := vfPickConfig(r)
 		desc := fmt.Sprintf("seed=%d case=%d n=%d stake=%v byz=%v", seed, c, n, stake, vfSortedKeys(byz))
-		// the first case of every shard and ~8% of the others: the directed stale-lock scenario
-		s6 := c == 0 || vfFork(seed^0x57A1E10C, uint64(c)+1000003).Chance(8)
-		if env := os.Getenv("VERIF_C04_S6"); env == "all" {
-			s6 = true
-		} else if env == "none" {
-			s6 = false
+		// directed prefixes (c01dir_test.go): the first case of every shard and ~8% of the others play
+		// the stale-lock scenario S6, the second case and ~6% of the others the forgotten-commit
+		// scenario S7. VERIF_C04_DIR=S6|S7 forces one of them for every case, =none disables both.
+		dirKind := ""
+		if dr := vfFork(seed^0x57A1E10C, uint64(c)+1000003); c == 0 || (c > 1 && dr.Chance(8)) {
+			dirKind = "S6"
+		} else if c == 1 || dr.Chance(6) {
+			dirKind = "S7"
 		}
+		if env := os.Getenv("VERIF_C04_DIR"); env == "none" || os.Getenv("VERIF_C04_S6") == "none" {
+			dirKind = ""
+		} else if env != "" {
+			dirKind = env
+		} else if os.Getenv("VERIF_C04_S6") == "all" {
+			dirKind = "S6"
+		}
+		s6 := dirKind != "" // (a directed prefix replaces the random one)
+		var dirD *vfDir
 		vfGuard(o, "panic-in-consensus", func() string { return desc }, func() {
 			var net *vfNet
 			prefix, restarts := 0, 0
 			if s6 {
-				// directed prefix: stale lock after a double round skip (vfDirS6 in c01dir_test.go);
-				// the synchronous suffix below then has to decide
+				// directed prefix: stale lock after a double round skip (vfDirS6) or commit forgotten after
+				// a round skip out of the commit step (vfDirS7); the synchronous suffix below then has
+				// to decide
 				dr := vfFork(seed^0x57A1E10C, uint64(c))
-				d, dd, err := vfDirPlay(o, dr, "S6", fmt.Sprintf("seed=%d case=%d", seed, c))
+				d, dd, err := vfDirPlay(o, dr, dirKind, fmt.Sprintf("seed=%d case=%d", seed, c))
 				if err != nil {
 					t.Fatalf("network construction failed: %v", err)
 				}
@@ -316,9 +351,11 @@ func TestVerifC04(t *testing.T) {
 				}
 				net, desc, r, prefix = d.net, dd, dr, 1
 				n, byz = len(net.keys), net.byz
-				o.Stat("prefix.stale-lock-scenario")
+				dirD = d
+				name := map[string]string{"S6": "stale-lock", "S7": "forgotten-commit"}[d.kind]
+				o.Stat("prefix." + name + "-scenario")
 				if d.derail == "" {
-					o.Stat("prefix.stale-lock-scenario.situation-reached")
+					o.Stat("prefix." + name + "-scenario.situation-reached")
 				}
 			} else {
 				var err error
@@ -487,6 +524,18 @@ func TestVerifC04(t *testing.T) {
 				}
 			}
 			o.Stat(fmt.Sprintf("suffix.rounds<=%d", (rounds/4+1)*4))
+			if dirD != nil && dirD.kind == "S7" {
+				if dirD.committedAll("A") {
+					o.Stat("dir.S7.A-committed")
+				} else {
+					o.Stat("dir.S7.A-NOT-committed")
+				}
+				if twice := vfSignedTwice(net, dirD.h); twice != "" {
+					// a node that signs two votes for one (height, round, type) is outside the protocol
+					// whatever the values are (a guarded signer refuses the second request)
+					o.Viol("signed-twice-in-a-round", desc+twice)
+				}
+			}
 			if !done {
 				detail := ""
 				for _, nd := range net.nodes {
@@ -527,7 +576,7 @@ func TestVerifC04(t *testing.T) {
 						cnt := map[string]int{}
 						for _, m := range ms {
 							if vm, ok := m.Msg.(*VoteMessage); ok {
-								cnt[fmt.Sprintf("v%d/r%d/t%d/%s", net.valIdx[vm.Vote.ValidatorAddress], vm.Vote.Round, vm.Vote.Type, vfBlockKey(vm.Vote.BlockID)[:6+0*len(vfBlockKey(vm.Vote.BlockID))])]++
+								cnt[fmt.Sprintf("v%d/r%d/t%d/%s", net.valIdx[vm.Vote.ValidatorAddress], vm.Vote.Round, vm.Vote.Type, (vfBlockKey(vm.Vote.BlockID) + "------")[:6])]++
 							}
 						}
 						fmt.Printf("height %d msgs=%d votes=%v\n", h, len(ms), cnt)
@@ -562,6 +611,21 @@ func TestVerifC04(t *testing.T) {
 				if stale, sd := vfStaleLocks(net, goal); stale && !seqsDisagree {
 					sig = "no-commit-after-stale-lock-double-skip"
 					detail = sd
+				}
+				// F37: some correct node entered the commit step at its height (CommitRound != 0), its
+				// own vote sets hold the +2/3 precommits for a block at that round, but it is no longer
+				// in the commit step: a round skip reset the round state and nothing re-evaluates the
+				// commit
+				if forgot, fd := vfForgottenCommits(net); forgot && !seqsDisagree {
+					sig = "no-commit-after-round-skip-out-of-commit-step"
+					detail = fd
+				}
+				hh := goal
+				if dirD != nil {
+					hh = dirD.h
+				}
+				if twice := vfSignedTwice(net, hh); twice != "" {
+					detail += " signed-twice:" + twice
 				}
 				o.Viol(sig, fmt.Sprintf("%s prefix=%d restarts=%d goal=%d bound=%d rounds:%s", desc, prefix, restarts, goal, bound, detail))
 			}
